@@ -884,6 +884,25 @@ public:
             XPathExecutionContext&  executionContext) const;
 
     /**
+     * Get the match score for the specified node, against one
+     * alternative of a match pattern.  A pattern that contains
+     * '|' has one alternative for each operand, in the order
+     * getTargetData() reports them.
+     *
+     * @param node The node for the score
+     * @param resolver The prefix resolver
+     * @param executionContext current execution context
+     * @param theAlternative The zero-based index of the alternative
+     * @return the score of the node for that alternative
+     */
+    eMatchScore
+    getMatchScore(
+            XalanNode*              node,
+            const PrefixResolver&   resolver,
+            XPathExecutionContext&  executionContext,
+            XalanSize_t             theAlternative) const;
+
+    /**
      * Evaluate a predicate.
      *
      * @param context          current source tree context node
